@@ -89,6 +89,7 @@ type scn struct {
 	flow       int                 // 0 full handler 1 accessor sequence
 	undefined  map[string]bool     // named by a requirement but absent from securityDefinitions (a typo or a rename in the description)
 	front      string              // flow 2: what the application middleware does before the operation executor: A = Authorize, R = ResetAuth
+	oauthLike  map[string]bool     // schemes defined as oauth2 whose authenticator only understands the scoped form of the request
 	lateReg    bool                // authenticators and the authorizer are registered after NewContext, before the handler is built
 	door       int                 // which handler constructor of the Context: 0 APIHandler 1 APIHandlerSwaggerUI 2 APIHandlerRapiDoc 3 RoutesHandler
 	reauth     bool                // flow 1: after a successful Authorize the caller drops the result (ResetAuth) and authorizes again
@@ -165,6 +166,10 @@ func generate(t *kernel.Tape) *scn {
 	}
 	s.door = t.Weighted("handler-constructor", 3, 1, 1, 1)
 	s.lateReg = t.Bool(4, "security-registered-after-the-context-exists")
+	s.oauthLike = map[string]bool{}
+	for _, name := range s.schemes {
+		s.oauthLike[name] = t.Bool(3, "oauth2-like-scheme")
+	}
 	return s
 }
 
@@ -224,6 +229,9 @@ func (prop) Run(t *testing.T, tape *kernel.Tape, sc kernel.Scenario) *kernel.Res
 			continue
 		}
 		api.SecDefs[n] = simapi.APIKeyDef("X-Key-" + n)
+		if s.oauthLike[n] {
+			api.SecDefs[n] = map[string]any{"type": "oauth2", "flow": "implicit", "authorizationUrl": "http://sim.local/auth/" + n, "scopes": map[string]any{"read": "r", "write": "w"}}
+		}
 	}
 	op := simapi.Op{Method: "POST", Path: "/secure/{id}", ID: "secured", Params: []simapi.Param{
 		{Name: "id", In: "path", Type: "string"},
@@ -254,7 +262,7 @@ func (prop) Run(t *testing.T, tape *kernel.Tape, sc kernel.Scenario) *kernel.Res
 				continue
 			}
 			n := n
-			u.RegisterAuth(n, &simapi.Auth{W: world, Scheme: n, OnCall: func() {
+			u.RegisterAuth(n, &simapi.Auth{W: world, Scheme: n, ScopedOnly: s.oauthLike[n], OnCall: func() {
 				consultations++
 				if s.cancelAt > 0 && consultations == s.cancelAt && cancelRequest != nil {
 					cancelRequest() // the client went away while credentials were being checked
@@ -344,8 +352,8 @@ func (prop) Run(t *testing.T, tape *kernel.Tape, sc kernel.Scenario) *kernel.Res
 	// ---- the route entry whose Schemes we permute
 	probe := httptest.NewRequest("POST", "/api/secure/x", nil)
 	route, ok := ctx.LookupRoute(probe)
-	if !ok || len(route.Authenticators) != len(s.alts) {
-		res.Infra = fmt.Sprintf("route not found or %d authenticators for %d alternatives", len(route.Authenticators), len(s.alts))
+	if !ok {
+		res.Infra = "route not found"
 		return res
 	}
 	// alternatives in the router's order correspond to s.alts in order
@@ -366,6 +374,7 @@ func (prop) Run(t *testing.T, tape *kernel.Tape, sc kernel.Scenario) *kernel.Res
 	}
 	markFaults(env, s)
 
+	initialAlts := ""
 	for round := 0; round < rounds; round++ {
 		idx := round
 		if total > 36 {
@@ -381,20 +390,23 @@ func (prop) Run(t *testing.T, tape *kernel.Tape, sc kernel.Scenario) *kernel.Res
 			sort.Strings(n)
 			return strings.Join(n, "&")
 		}
-		var haveAlts, wantAlts []string
+		var haveAlts []string
 		for i := range route.Authenticators {
 			haveAlts = append(haveAlts, canonAlt(route.Authenticators[i].Schemes))
-			wantAlts = append(wantAlts, canonAlt(keys(s.alts[i])))
 		}
 		sort.Strings(haveAlts)
-		sort.Strings(wantAlts)
-		changed := strings.Join(haveAlts, "|") != strings.Join(wantAlts, "|")
+		if round == 0 {
+			// how the route chose to keep the requirement (it may prune or reorder when it is built) is judged by how it
+			// answers requests; what serving requests must not do is change it
+			initialAlts = strings.Join(haveAlts, "|")
+		}
+		changed := strings.Join(haveAlts, "|") != initialAlts
 		if changed {
 			var now []string
 			for i := range route.Authenticators {
 				now = append(now, strings.Join(route.Authenticators[i].Schemes, "&"))
 			}
-			env.Violate("C02/route-structure-changed", "alternatives-reordered-by-serving", "after %d served requests the route's alternatives are [%s], the description says %s", round, strings.Join(now, " | "), s.String())
+			env.Violate("C02/route-structure-changed", "alternatives-reordered-by-serving", "after %d served requests the route's alternatives are [%s], before the first one they were [%s] (%s)", round, strings.Join(now, " | "), initialAlts, s.String())
 			break
 		}
 		var orderDesc []string
